@@ -16,7 +16,10 @@ literal up to the trailing newline, same version constant) and the reader refuse
 "old new parent..." written with single-space separators and read by split(b" ") into key pts[0], value (pts[1],
 tuple(pts[2:])); lines are terminated by the newline the reader splits on; (d) RebaseState1 reads and writes the plan and
 the current revision id under the same file-name constants.
-Does not decide: plan contents and ordering (graph values) — not applicable to static analysis.
+(e) plan generation, two structural necessary conditions only: generate_simple_plan replays the whole slice of the
+topological order from start to stop (no filtering), and generate_transpose_plan recomputes an already processed child
+when another of its parents is rewritten.
+Does not decide: plan contents and ordering beyond (e) (graph values) — not applicable to static analysis.
 """
 
 
@@ -56,6 +59,43 @@ def run(ctx):
     ctx.check("plan-lines", ww, len(wloop) == 1 and norm(wloop[0].iter) == "replace_map" and any(norm(s_.value) == f"replace_map[{norm(wloop[0].target)}]" for s_ in walk_own(wloop[0]) if isinstance(s_, ast.Assign)), "every entry of the replace map is written")
     rloop = [n for n in walk_own(fr) if isinstance(n, ast.For)]
     ctx.check("plan-lines", wr, len(rloop) == 1 and norm(rloop[0].iter) == f"{LN}[2:]", "every line after the two header lines is read")
+    # ---- plan generation: two structural necessary conditions (the plan's values stay undecided) -------------------
+    fg = repo.func(RB, "generate_simple_plan")
+    wg = f"{RB}:generate_simple_plan"
+    from ..astutil import bind_roles, canonicalise
+
+    fg = canonicalise(fg, bind_roles(fg, {"order": ("assign", "~topo_sort\\(.*\\)")}, wg))
+    main = [n for n in walk_own(fg) if isinstance(n, ast.For) and any(isinstance(x, ast.Subscript) and isinstance(x.ctx, ast.Store) and norm(x.value) == "replace_map" for x in ast.walk(n))]
+    ctx.require(len(main) == 1 and isinstance(main[0].iter, ast.Name), f"{wg}: the loop that fills replace_map was not found")
+    todo = main[0].iter.id
+    single = {}
+    for s_ in walk_own(fg):
+        if isinstance(s_, ast.Assign) and len(s_.targets) == 1 and isinstance(s_.targets[0], ast.Name):
+            single.setdefault(s_.targets[0].id, []).append(s_.value)
+
+    def resolve(e, depth=0):
+        """Inline temporaries that are assigned exactly once."""
+        if isinstance(e, ast.Name) and len(single.get(e.id, [])) == 1 and e.id not in ("order", "start_revid", "stop_revid") and depth < 4:
+            return resolve(single[e.id][0], depth + 1)
+        return e
+
+    tv = [resolve(v) for v in single.get(todo, [])]
+    ok = len(tv) == 1 and isinstance(tv[0], ast.Subscript) and norm(tv[0].value) == "order" and isinstance(tv[0].slice, ast.Slice)
+    if ok:
+        lo, hi = resolve(tv[0].slice.lower) if tv[0].slice.lower is not None else None, resolve(tv[0].slice.upper) if tv[0].slice.upper is not None else None
+        ok = lo is not None and norm(lo) == "order.index(start_revid)" and hi is not None and isinstance(hi, ast.BinOp) and isinstance(hi.op, ast.Add) and {norm(resolve(hi.left)), norm(resolve(hi.right))} == {"order.index(stop_revid)", "1"}
+    ctx.check("plan-covers-range", wg, ok, "the revisions replayed are the whole slice of the topological order from start_revid to stop_revid inclusive (nothing between them is filtered out)", construct="; ".join(norm(v)[:80] for v in single.get(todo, [])), message=f"the set of revisions to replay is no longer order[index(start) : index(stop) + 1] ({'; '.join(norm(v)[:80] for v in single.get(todo, []))}): a revision of the branch that sorts between start and stop but is dropped keeps its old id while its descendants are rewritten onto it")
+    ft = repo.func(RB, "generate_transpose_plan")
+    wt = f"{RB}:generate_transpose_plan"
+    from ..cfg import build_cfg
+
+    gt = build_cfg(ft)
+    rec = [n.id for n in gt.nodes if n.kind == "stmt" and isinstance(n.ast, ast.Assign) and isinstance(n.ast.targets[0], ast.Subscript) and norm(n.ast.targets[0].value) == "replace_map" and isinstance(n.ast.value, ast.Tuple)]
+    inner = [n for n in gt.nodes if n.kind == "for" and norm(n.ast.iter).startswith("children[")]
+    ctx.require(bool(rec) and len(inner) == 1, f"{wt}: the child loop / replace_map update was not found")
+    cv = norm(inner[0].ast.target)
+    g_seen = gt.assume({f"{cv} in processed": True, f"{cv} not in processed": False, f"{cv} in renames": False, f"{cv} not in renames": True})
+    ctx.check("transpose-recomputes-per-parent", wt, bool(set(rec) & g_seen.reach([inner[0].id])), "a child that was already processed is recomputed again when another of its parents is rewritten (only re-queueing is skipped)", message="a child already processed is skipped when a further rewritten parent reaches it: a merge below the transposed revisions keeps the old id of its second rewritten parent")
     # state file names
     cls = repo.cls(RB, "RebaseState1")
     uses = {}
@@ -78,6 +118,9 @@ def run(ctx):
 
 
 MUTANTS = [
+    Mutant("plan keeps only descendants of the start revision", RB, "    todo = order[order.index(start_revid) : order.index(stop_revid) + 1]\n", "    todo = [r for r in order[order.index(start_revid) : order.index(stop_revid) + 1] if r == start_revid or parent_map[r]]\n", expect="plan-covers-range"),
+    Mutant("processed children skipped in the transpose plan", RB, "                if c in renames:\n                    continue\n", "                if c in renames or c in processed:\n                    continue\n", expect="transpose-recomputes-per-parent"),
+    Mutant("neutral: slice bounds through temporaries", RB, "    todo = order[order.index(start_revid) : order.index(stop_revid) + 1]\n", "    first = order.index(start_revid)\n    last = order.index(stop_revid)\n    todo = order[first : last + 1]\n", neutral=True),
     Mutant("header differs on the writer", RB, "    ret = b\"# Bazaar rebase plan %d\\n\" % REBASE_PLAN_VERSION", "    ret = b\"# Bazaar rebase plan v%d\\n\" % REBASE_PLAN_VERSION", expect="header"),
     Mutant("parents joined by commas", RB, "            + b\"\".join([b\" %s\" % p for p in newparents])", "            + b\" \" + b\",\".join(newparents)", expect="plan-lines"),
     Mutant("reader drops the parents", RB, "        replace_map[pts[0]] = (pts[1], tuple(pts[2:]))", "        replace_map[pts[0]] = (pts[1], tuple(pts[3:]))", expect="plan-lines"),
